@@ -48,7 +48,7 @@ class FakeSocket:
         self.closed = False
         self.remote_closed = False
         self.refused = False
-        self.send_limit = None      # max bytes accepted per send() (None = all)
+        self.send_limit = getattr(net, 'default_send_limit', None)      # max bytes accepted per send() (None = all)
 
     # --- socket API used by the node
     def setblocking(self, flag):
@@ -62,8 +62,22 @@ class FakeSocket:
 
     def connect_ex(self, addr):
         self.remote_addr = addr
+        if addr[0] in getattr(self.net, 'unreachable', ()):
+            self.refused = True          # no route: the connect fails on the spot (ENETUNREACH), nothing will ever arrive
+            return 101
         self.net.connect(self, addr)
         return 115
+
+    def connect(self, addr):
+        rc = self.connect_ex(addr)
+        if rc == 101:
+            raise OSError(101, 'Network is unreachable')
+        raise BlockingIOError(115, 'Operation now in progress')
+
+    def sendall(self, data):
+        n = self.send(data)
+        if n < len(data):
+            raise BlockingIOError(11, 'Resource temporarily unavailable')
 
     def getpeername(self):
         if self.remote_addr is None:
@@ -129,8 +143,19 @@ class FakeSocketModule:
 
     def socket(self, *a):
         node = self.net.acting
+        limit = getattr(self.net, 'max_open_sockets', None)
+        if limit is not None:
+            opened = getattr(node, 'sockets_opened', [])
+            opened[:] = [x for x in opened if not x.closed]
+            if len(opened) >= limit:
+                raise OSError(24, 'Too many open files')
         self.net.ephemeral += 1
-        return FakeSocket(self.net, node, (node.host, 40000 + self.net.ephemeral))
+        sk = FakeSocket(self.net, node, (node.host, 40000 + self.net.ephemeral))
+        if limit is not None:
+            if not hasattr(node, 'sockets_opened'):
+                node.sockets_opened = []
+            node.sockets_opened.append(sk)
+        return sk
 
 
 class FakeSelector:
@@ -185,10 +210,22 @@ class Node:
         with contextlib.redirect_stdout(io.StringIO()):
             self.store = blockstore.BlockStore(os.path.join(self.dir, 'chain.db')) if real_store else None
         blockstore.DefaultBlockStore.instance = self.store
-        self.lp = LocalPeer(disk_interface=DiskInterface())
+        # the node is put together the way the scripts do it: through NetworkingThread's constructor (which creates the
+        # LocalPeer and hands it the chain state); the thread itself is never started -- simnet drives the event loop
+        try:
+            from skepticoin.networking.threading import NetworkingThread
+
+            class OfflineDiskInterface(DiskInterface):
+                def load_peers(self):          # the real one fetches a seed list over the network when peers.json is missing
+                    return {}
+            self.thread = NetworkingThread(coinstate, port if listen else None, OfflineDiskInterface())
+            self.lp = self.thread.local_peer
+            self.lp.network_manager.disconnected_peers = {}
+        except Exception:
+            self.lp = LocalPeer(disk_interface=DiskInterface())
+            self.lp.chain_manager.set_coinstate(coinstate)
         self.lp.selector = FakeSelector()
         self.lp.running = True
-        self.lp.chain_manager.set_coinstate(coinstate)
         self.lp.chain_manager.started_at = net.clock()
         if listen:
             self.lp.port = port
@@ -285,7 +322,10 @@ class RawPeer:
         return self
 
     def send(self, data):
-        self.sock.send(data)
+        data = bytes(data)
+        while data:                      # a scripted peer writes like a blocking client: everything goes out
+            n = self.sock.send(data)
+            data = data[n:]
 
     def drain(self):
         self.received += self.sock.flight
@@ -329,6 +369,9 @@ class Net:
         self.saved = []
         self.cwd = os.getcwd()
         self.allowed = None       # optional set of frozenset({hostA, hostB}): every other connection attempt is refused
+        self.default_send_limit = None   # congested links: every send() takes at most this many bytes
+        self.unreachable = set()         # hosts without a route: connecting fails on the spot
+        self.max_open_sockets = None     # per-node descriptor limit (EMFILE beyond it)
 
     def __enter__(self):
         from skepticoin.networking import local_peer as LP, remote_peer as RP, manager as MG
